@@ -50,6 +50,13 @@ class Rec:
                 r = v(*a2, **k2)
                 w = wrap(r, reg)
                 log[name + '()'] = w
+                # a call with ONE plain argument (a qubit, a name, an int) is also recorded under that argument, so that a
+                # function calling the same method with two different arguments can be replayed
+                if len(a2) == 1 and not k2:
+                    x = a2[0]
+                    key = tok(x.id) if qubit_like(x) else tok(x) if isinstance(x, str) else str(x) if type(x) is int else None
+                    if key is not None:
+                        log[f'{name}({key})'] = w
                 return w
             return call
         w = wrap(v, reg)
@@ -470,10 +477,37 @@ def gen_draw_cases(rng, n):
     return cases
 
 
+def gen_conn_cases(rng, n):
+    """frequency ordering (all 9 pairs) and the moving side of a gate on the Surface-17 layer: device edges in both
+    orientations, qubits on and off the edge."""
+    from qce_circuit.connectivity.intrf_connectivity_surface_code import FrequencyGroupIdentifier, FrequencyGroup
+    from qce_circuit.connectivity.connectivity_surface_code import Surface17Layer
+    from qce_circuit.connectivity.intrf_channel_identifier import EdgeIDObj
+    cases = []
+    groups = list(FrequencyGroup)
+    for a in groups:
+        for b in groups:
+            for name in ('Freq_is_equal_to', 'Freq_is_higher_than', 'Freq_is_lower_than'):
+                cases.append((name, [FrequencyGroupIdentifier(a), FrequencyGroupIdentifier(b)]))
+    layer = Surface17Layer()
+    edges = list(layer.edge_ids)
+    qubits = list(layer.qubit_ids)
+    for _ in range(n * 2):
+        e = rng.choice(edges)
+        q0, q1 = e.qubit_ids
+        if rng.random() < 0.5:
+            e = EdgeIDObj(q1, q0)
+        q = rng.choice([q0, q1, rng.choice(qubits)])
+        cases.append(('Conn_on_moving_side', [q, e, layer]))
+        cases.append(('Conn_get_higher_frequency_qubit_id', [e, layer]))
+        cases.append(('Conn_get_lower_frequency_qubit_id', [e, layer]))
+    return cases
+
+
 ENGINE_CALLS = {'Detector_to_stim', 'Observable_to_stim', 'CoordinateShift_to_stim'}
 
 GENERATORS = {'kernels': gen_kernel_cases, 'ident': gen_ident_cases, 'timing': gen_timing_cases, 'export': gen_export_cases,
-              'acq': gen_acq_cases, 'draw': gen_draw_cases}
+              'acq': gen_acq_cases, 'draw': gen_draw_cases, 'conn': gen_conn_cases}
 
 
 def run_cases(cases):
